@@ -474,3 +474,138 @@ def bitflip_programs(rng, flavour, n_hist, region="head"):
                 prog += [{"op": "find", "fl": fl, "key": kx(K)} for fl in FLS[flavour]]
                 prog.append({"op": "list"})
                 yield prog
+
+# ---------------------------------------------------------------- C11: metadata round trip
+def meta_programs(rng, flavour, n):
+    """several writes to the same key whose fields are drawn from small pools (so that successive records differ in
+    exactly one field, repeat earlier values, ...), through streamed writers and index::insert; read back by
+    metadata / find / list after every write; explicit times make bucket bytes comparable byte for byte"""
+    for _ in range(n):
+        key = rand_key(rng, 0.4)
+        datas = [rand_bytes(rng, rng.choice([0, 3, 10])), rand_bytes(rng, 4)]
+        times = [None, str(rng.choice([0, 7, 2**64, 2**128 - 1, 2**100 + 3])), "1234567"]
+        metas = ["absent", rand_meta(rng), rand_meta(rng), None]
+        raws = [None, rand_bytes(rng, rng.randrange(0, 5)).hex(), rand_bytes(rng, 3).hex(), "00ff"]
+        prog, w = [], 0
+        for _ in range(rng.randrange(2, 6)):
+            data, algo = rng.choice(datas), rng.choice(["sha256", "sha256", "sha1", "sha512"])
+            t, m, r = rng.choice(times), rng.choice(metas), rng.choice(raws)
+            if rng.random() < 0.75:
+                w += 1
+                op = {"op": "open", "fl": pick_fl(rng, flavour), "w": w, "key": kx(key), "algo": algo}
+                if rng.random() < 0.5: op["size"] = len(data)
+                sm = rng.random()
+                other = "sha1" if algo != "sha1" else "sha256"
+                if sm < 0.2: op["sri"] = hashes.sri(algo, data)
+                elif sm < 0.4: op["sri"] = hashes.sri(algo, data) + " " + hashes.sri(other, data)
+                if t is not None: op["time"] = t
+                if m != "absent": op["meta"] = m
+                if r is not None: op["raw"] = r
+                prog += [op, {"op": "wchunk", "w": w, "data": data.hex(), "mode": "write_all"}, {"op": "commit", "w": w}]
+            else:
+                op = {"op": "insert", "fl": pick_fl(rng, flavour), "key": kx(key), "sri": hashes.sri(algo, data)}
+                if rng.random() < 0.6: op["size"] = rng.choice([0, len(data), 2**64 - 1])
+                if t is not None: op["time"] = t
+                if m != "absent": op["meta"] = m
+                if r is not None: op["raw"] = r
+                prog.append(op)
+            prog.append({"op": rng.choice(["metadata", "find"]), "fl": pick_fl(rng, flavour), "key": kx(key)})
+            if rng.random() < 0.5: prog.append({"op": "list"})
+            prog.append({"op": "refcheck", "key": kx(key)})
+        prog.append({"op": "list"})
+        yield prog
+
+# ---------------------------------------------------------------- C17: the reference implementation writes
+def _spell(rng, obj):
+    """a valid JSON spelling of obj as another implementation might produce it"""
+    import json as J
+    style = rng.randrange(0, 6)
+    items = list(obj.items())
+    if style == 1: rng.shuffle(items)
+    if style == 2: items.insert(rng.randrange(0, len(items) + 1), ("extra_field", {"x": [1, None]}))
+    if style == 5 and rng.random() < 0.5: items = [kv for kv in items if kv[0] != "raw_metadata" or kv[1] is not None]
+    d = dict(items)
+    if style == 3:
+        return J.dumps(d, separators=(", ", ": "), ensure_ascii=False)
+    if style == 4:
+        return J.dumps(d, separators=(",", ":"), ensure_ascii=True)       # \uXXXX escapes, surrogate pairs
+    if style == 5:
+        return " " + J.dumps(d, separators=(" ,", " :"), ensure_ascii=False) + " "
+    return J.dumps(d, separators=(",", ":"), ensure_ascii=False)
+
+def ref_written_programs(rng, flavour, n):
+    for _ in range(n):
+        key = rng.choice(SMALL_KEYS + ["ék", "k\U0001F600", 'q"\\', "tab\t"])
+        recs = []
+        for i in range(rng.randrange(1, 5)):
+            integ = None if rng.random() < 0.25 else rng.choice(FAKE_SRIS)
+            obj = {"key": key, "integrity": integ, "time": rng.choice([i, 2**70 + i]), "size": rng.choice([0, 5, 2**40]),
+                   "metadata": rng.choice(METAS), "raw_metadata": rng.choice([None, None, [0, 255, 7], []])}
+            recs.append(ref.record_bytes(_spell(rng, obj).encode()))
+        loc = ref.loc_c(ref.bucket_rel(key.encode()))
+        prog = [{"op": "damage", "kind": "mkdir", "loc": loc.rsplit("/", 1)[0]},
+                {"op": "damage", "kind": "set", "loc": loc, "data": b"".join(recs).hex()}]
+        prog += [{"op": "find", "fl": fl, "key": kx(key)} for fl in FLS[flavour]]
+        prog += [{"op": "refcheck", "key": kx(key)}, {"op": "list"}]
+        # the library continues the file; the reference reader must follow
+        prog.append(rand_insert(rng, key, pick_fl(rng, flavour)))
+        prog += [{"op": "refcheck", "key": kx(key)}, {"op": "list"}]
+        yield prog
+
+# ---------------------------------------------------------------- C20: crafted states
+ODD_INTEGRITIES = ["", " ", "sha256-", "sha256-@@@", "sha256-QQ==", "sha256-QUI=", "md5-abcd", "sha256", "sha1-deadbeef",
+                   "sha256-AAAA sha999-x", "sha512-!", "sha256-QUJD-tail", "xxh3-QUJDRA==", "sha256-QUJ="]
+
+def rand_integrity(rng):
+    """integrity strings around the edge of what content_path can address"""
+    import base64
+    r = rng.random()
+    if r < 0.4:
+        return rng.choice(ODD_INTEGRITIES)
+    algo = rng.choice(hashes.ALGOS)
+    raw = rand_bytes(rng, rng.choice([0, 1, 2, 3, 4, 5, 20]))
+    b = base64.b64encode(raw).decode()
+    if r < 0.6:
+        return f"{algo}-{b}"
+    b = list(b) or ["A"]
+    k = rng.randrange(0, len(b))
+    m = rng.random()
+    if m < 0.3: b[k] = rng.choice("ABab09+/=-_ .")            # substitute a symbol (non-canonical trailing bits, bad char)
+    elif m < 0.5: b = b[:k]                                    # cut
+    elif m < 0.7: b.insert(k, rng.choice("=A/"))
+    elif m < 0.85: b = [c for c in b if c != "="]              # drop the padding
+    else: b.append("=")
+    return f"{algo}-{''.join(b)}"
+
+def crafted_programs(rng, flavour, n):
+    for _ in range(n):
+        key = rng.choice(SMALL_KEYS)
+        recs = [record(key, rng.choice(FAKE_SRIS), time=1, size=3)]
+        r = rng.random()
+        if r < 0.6:
+            recs.append(record(key, rand_integrity(rng), time=2, size=4))
+        elif r < 0.8:
+            recs.append(ref.record_bytes(rng.choice([b"{}", b"[]", b"null", b"{\"key\":\"" + key.encode() + b"\"}",
+                                                     b"[\"" + key.encode() + b"\",null,1,2,null,null]", b"[" * 200 + b"]" * 200])))
+        loc = ref.loc_c(ref.bucket_rel(key.encode()))
+        prog = [{"op": "damage", "kind": "mkdir", "loc": loc.rsplit("/", 1)[0]},
+                {"op": "damage", "kind": "set", "loc": loc, "data": b"".join(recs).hex()}]
+        if r >= 0.8:
+            # directory / dangling symlink where a bucket or a content file should be
+            what = rng.choice(["bucket_dir", "bucket_link", "content_dir", "content_link"])
+            if what == "bucket_dir": prog[1] = {"op": "damage", "kind": "mkdir", "loc": loc}
+            elif what == "bucket_link": prog[1] = {"op": "damage", "kind": "symlink", "loc": loc, "target": "d:" + b"nowhere".hex()}
+            else:
+                cl = ref.loc_c(ref.content_rel(FAKE_SRIS[0]))
+                prog.append({"op": "damage", "kind": "mkdir", "loc": cl.rsplit("/", 1)[0]})
+                prog.append({"op": "damage", "kind": "mkdir", "loc": cl} if what == "content_dir" else
+                            {"op": "damage", "kind": "symlink", "loc": cl, "target": "d:" + b"../x".hex()})
+        for fl in FLS[flavour]:
+            prog += [{"op": "find", "fl": fl, "key": kx(key)}, {"op": "read", "fl": fl, "key": kx(key)}]
+        prog += [{"op": "list"}, {"op": "read_hash", "fl": pick_fl(rng, flavour), "sri": FAKE_SRIS[0]},
+                 {"op": "exists", "fl": pick_fl(rng, flavour), "sri": FAKE_SRIS[0]},
+                 {"op": "copy", "fl": "sync", "by": "key", "checked": True, "key": kx(key), "to": "o1"},
+                 {"op": "remove_opts", "fl": pick_fl(rng, flavour), "key": kx(key), "fully": True},
+                 {"op": "write", "fl": pick_fl(rng, flavour), "key": kx(key), "data": "00"},
+                 {"op": "read", "fl": pick_fl(rng, flavour), "key": kx(key)}]
+        yield prog
